@@ -252,6 +252,13 @@ func runC20(c *Ctx) {
 				cls("false", "recv.l.Offset < 0 || (recv.l.Count >= 0 && recv.step >= recv.l.Count) || !recv.Iterator.Valid()"),
 				cls("true", ""),
 			}, 8)
+			// anything but `false` is returned only inside the limits and on a valid position
+			within := c.W.Parse("!(recv.l.Offset < 0) && !(recv.l.Count >= 0 && recv.step >= recv.l.Count) && recv.Iterator.Valid()")
+			for _, s := range u.Sites {
+				if s.Kind == flow.SReturn && s.Block.Reachable() && u.C.Term(s.Ret.Results[0]) != "false" {
+					r.GuardSite("C20-T3", u, s, within, "within Offset/Count limits and on a valid position")
+				}
+			}
 		}
 	}
 	if u := c.unit("C20-T3", "engine.rangeLimitIterator"); u != nil {
